@@ -266,6 +266,15 @@ func c10Profiles(tier Tier) []*explore.Profile {
 			for _, a := range users(o) {
 				acts = append(acts, uni.Create(a, uni.S, 1))
 			}
+			// a cross-shard SetUserName provided with exactly its price, one unit more and twice the
+			// price: the message the sender shard emits has to be executable on the user's shard
+			if price := world.DefaultSchedule()[vmcommon.BuiltInCostString]["SaveUserName"]; price > 0 {
+				for _, g := range []uint64{price, price + 1, 2*price - 1, 2 * price} {
+					a := uni.Call(uni.D0, uni.C1, vmcommon.BuiltInFunctionSetUserName, []byte("nm"))
+					a.Gas = g
+					acts = append(acts, a)
+				}
+			}
 			for _, target := range [][]byte{uni.B0, uni.C1} {
 				for _, c := range [][]byte{uni.D0, uni.A0} {
 					acts = append(acts, uni.Call(c, target, vmcommon.BuiltInFunctionSetUserName, []byte("nm")))
